@@ -1,7 +1,69 @@
 import GluonModel.Sexp
-open GluonModel
+import GluonModel.LayoutAlgo
+open GluonModel GluonModel.LayoutAlgo
+
+def kindOfName : String → Option Kind
+  | "shebang" => some .shebang | "doc" => some .doc | "attrOpen" => some .attrOpen
+  | "rec" => some .rec_ | "else" => some .else_ | "if" => some .if_ | "in" => some .in_
+  | "let" => some .let_ | "do" => some .do_ | "seq" => some .seq_ | "match" => some .match_
+  | "then" => some .then_ | "type" => some .type_ | "with" => some .with_
+  | "comma" => some .comma | "equals" => some .equals | "lambda" => some .lambda
+  | "pipe" => some .pipe | "rarrow" => some .rarrow
+  | "lbrace" => some .lbrace | "lbracket" => some .lbracket | "lparen" => some .lparen
+  | "rbrace" => some .rbrace | "rbracket" => some .rbracket | "rparen" => some .rparen
+  | "openBlock" => some .openBlock | "closeBlock" => some .closeBlock | "semi" => some .semi
+  | "eof" => some .eof | "other" => some .other | "lexErr" => some .lexErr
+  | _ => none
+
+def kindName : Kind → String
+  | .shebang => "shebang" | .doc => "doc" | .attrOpen => "attrOpen"
+  | .rec_ => "rec" | .else_ => "else" | .if_ => "if" | .in_ => "in"
+  | .let_ => "let" | .do_ => "do" | .seq_ => "seq" | .match_ => "match"
+  | .then_ => "then" | .type_ => "type" | .with_ => "with"
+  | .comma => "comma" | .equals => "equals" | .lambda => "lambda"
+  | .pipe => "pipe" | .rarrow => "rarrow"
+  | .lbrace => "lbrace" | .lbracket => "lbracket" | .lparen => "lparen"
+  | .rbrace => "rbrace" | .rbracket => "rbracket" | .rparen => "rparen"
+  | .openBlock => "openBlock" | .closeBlock => "closeBlock" | .semi => "semi"
+  | .eof => "eof" | .other => "other" | .lexErr => "lexErr"
+
+def parseTok : Sexp → Option Tok
+  | .list [.atom k, l, c, s, e] => do
+    let k ← kindOfName k
+    let l ← l.toNat?
+    let c ← c.toNat?
+    let s ← s.toNat?
+    let e ← e.toNat?
+    pure ⟨k, ⟨l, c, s⟩, e⟩
+  | _ => none
+
+def parseToks : List Sexp → Option (List Tok)
+  | [] => some []
+  | x :: xs => do
+    let t ← parseTok x
+    let ts ← parseToks xs
+    pure (t :: ts)
+
+def renderOut (ts : List Tok) : String :=
+  String.join (ts.map fun t => " (" ++ kindName t.kind ++ " " ++ toString t.loc.abs ++ " " ++ toString t.stop ++ ")")
 
 def handle : List Sexp → String
-  | _ => "unimplemented"
+  | .atom "layout" :: fuel :: toks =>
+    match fuel.toNat?, parseToks toks with
+    | some fuel, some ts =>
+      match ts.reverse with
+      | eof :: revInput =>
+        let (out, how) := layout revInput.reverse eof fuel
+        let h := match how with
+          | .ok => "ok"
+          | .err (.unindented a) => "(err unindented " ++ toString a ++ ")"
+          | .err (.lex s e) => "(err lex " ++ toString s ++ " " ++ toString e ++ ")"
+          | .panic => "panic"
+          | .hang => "hang"
+          | .fuel => "fuel"
+        "(" ++ h ++ renderOut out ++ ")"
+      | [] => "bad-request"
+    | _, _ => "bad-request"
+  | _ => "bad-request"
 
 def main : IO Unit := driverLoop handle
